@@ -20,7 +20,7 @@ ${VERIF_CXX:-g++} -std=gnu++17 -O1 -g -fno-omit-frame-pointer -fsanitize=address
   "$ROOT/harness/c10_gen_corpus.cpp" -o "$BIN"
 rm -rf "$OUT"; mkdir -p "$OUT"
 export ASAN_OPTIONS=detect_leaks=0:exitcode=99 UBSAN_OPTIONS=print_stacktrace=1:halt_on_error=1
-if [ "$MODE" = "pinned" ]; then
+if [ "$MODE" = "pinned" ] && [ -z "$C10_NO_SHIPPED" ]; then   # C10_NO_SHIPPED=1: trial run, leave corpus/shipped alone
   rm -rf "$ROOT/corpus/shipped"; mkdir -p "$ROOT/corpus/shipped"
   "$BIN" "$OUT" --shipped "$ROOT/corpus/shipped" "$TREE"
 else
